@@ -40,13 +40,20 @@ KW = {f: f + "_over" for f in FNS}
 class Recorder:
     """custom aggregation function: logs its argument and returns an id determined by the argument"""
 
-    def __init__(self):
+    def __init__(self, mutate=False):
         self.log = []
         self.table = {}
         self.args = []
+        self.mutate = mutate
 
     def __call__(self, vals):
+        arg = vals
         vals = list(vals)
+        if self.mutate and isinstance(arg, list):
+            # a user function may use its argument as scratch space (sort it, pop from it): every call must have been handed
+            # the group's values in a list of its own
+            arg.reverse()
+            arg.append("scratch")
         self.log.append(vals)
         k = tuple((type(v).__name__, repr(v)) for v in vals)
         if k not in self.table:
@@ -128,7 +135,7 @@ def run_raw(spec, which=("agg",)):
             t, ext = build(pre)
             for w in which:
                 try:
-                    (t.aggregate if w == "agg" else t.window)(**call_kwargs(t, ext, spec, [Recorder() for _ in range(len(spec.get("apply") or []))]))
+                    (t.aggregate if w == "agg" else t.window)(**call_kwargs(t, ext, spec, [Recorder(bool(spec.get("mutating"))) for _ in range(len(spec.get("apply") or []))]))
                 except Exception:
                     pass
             for kind, j, i, old in warm["edits"]:
@@ -143,7 +150,7 @@ def run_raw(spec, which=("agg",)):
                "tcols": [list(storage(c)) for c in t.cols()], "tnames": [c.name for c in t.cols()],
                "xcols": [list(storage(c)) for c in ext], "xnames": [c.name for c in ext]}
         napply = len(spec.get("apply") or [])
-        recs = [Recorder() for _ in range(napply)]
+        recs = [Recorder(bool(spec.get("mutating"))) for _ in range(napply)]
         for w in which:
             for r in recs:
                 r.log = []
@@ -429,10 +436,16 @@ def random_spec(rng, fam, interleave=False):
                     spec[f][1] = spec[f][0]          # the same column twice
             elif rng.random() < 0.1:
                 spec[f] = []
-    for _ in range(rng.choice([0, 0, 1, 1, 2])):
+    for _ in range(rng.choice([0, 0, 1, 1, 2, 3])):
         name = rng.choice(APPLY_NAMES)
         if name not in [a[0] for a in spec["apply"]]:
             spec["apply"].append([name, mk(rng.choice(allrefs))])
+    if len(spec["apply"]) >= 2 and rng.random() < 0.5:
+        spec["apply"][1][1] = spec["apply"][0][1]          # two custom functions on the same column
+    if spec["apply"] and rng.random() < 0.4:
+        spec["mutating"] = True                            # ... that use their argument as scratch space
+    if rng.random() < 0.03:
+        spec["over"] = []                                  # no key column at all: the whole table is one group
     spec["single"] = [a for a in ["over"] + FNS if rng.random() < 0.4]
     return spec
 
